@@ -110,6 +110,43 @@ func (in *Interp) sitePair(st *State, v BufV, lo, hi *Term, e ast.Expr) {
 func (in *Interp) assume(st *State, cond ast.Expr, truth bool) {
 	cond = unparen(cond)
 	switch x := cond.(type) {
+	case *ast.CallExpr:
+		// a predicate helper whose body is one `return <condition>` (shorterThan(data, n)): the branch learns
+		// what the condition says about the arguments
+		f := in.callee(x)
+		if f == nil {
+			return
+		}
+		fi := in.w.FuncOf(f)
+		if fi == nil || fi.Decl.Body == nil || len(fi.Decl.Body.List) != 1 || fi.Decl.Recv != nil || in.depth >= maxInline {
+			return
+		}
+		rs, ok := fi.Decl.Body.List[0].(*ast.ReturnStmt)
+		if !ok || len(rs.Results) != 1 {
+			return
+		}
+		save := in.noSites
+		in.noSites = true
+		var args []Val
+		for _, a := range x.Args {
+			args = append(args, in.eval(st, a))
+		}
+		in.noSites = save
+		sub := &Interp{w: in.w, fi: fi, info: fi.Pkg.TypesInfo, depth: in.depth + 1, parent: in, shared: in.shared, noSites: true}
+		saved := st.vars
+		st.vars = map[types.Object]Val{}
+		i := 0
+		for _, fl := range fi.Decl.Type.Params.List {
+			for _, nm := range fl.Names {
+				if i < len(args) {
+					st.vars[fi.Pkg.TypesInfo.Defs[nm]] = args[i]
+				}
+				i++
+			}
+		}
+		sub.assume(st, rs.Results[0], truth)
+		st.vars = saved
+		return
 	case *ast.UnaryExpr:
 		if x.Op == token.NOT {
 			in.assume(st, x.X, !truth)
@@ -179,6 +216,11 @@ func (in *Interp) assume(st *State, cond ast.Expr, truth bool) {
 					add(Const(1), a)
 				} else if a.IsZero() && b.NonNeg() {
 					add(Const(1), b)
+				} else if ok, _ := Prove(a, b, st.facts); ok {
+					// a <= b is known and a != b: a < b (a cursor that is not at the end yet)
+					add(a.AddC(1), b)
+				} else if ok, _ := Prove(b, a, st.facts); ok {
+					add(b.AddC(1), a)
 				}
 			}
 		}
